@@ -197,8 +197,41 @@ func sliceOf(s, lo, hi Term) Term {
 	return Term{S: fmt.Sprintf("(slice_%s %s %s %s)", s.Sort.sfx(), s.S, lo.S, hi.S), Sort: s.Sort, GoT: s.GoT}
 }
 func singleOf(seq Sort, e Term) Term { return mk(seq, "(single_%s %s)", seq.sfx(), e.S) }
+type updRec struct{ base, idx, val Term }
+
+// updInfo remembers the structure of upd terms so that reads at literal indices simplify syntactically
+var updInfo = map[string]updRec{}
+
 func updOf(s, i, v Term) Term {
-	return Term{S: fmt.Sprintf("(upd_%s %s %s %s)", s.Sort.sfx(), s.S, i.S, v.S), Sort: s.Sort, GoT: s.GoT}
+	t := Term{S: fmt.Sprintf("(upd_%s %s %s %s)", s.Sort.sfx(), s.S, i.S, v.S), Sort: s.Sort, GoT: s.GoT}
+	updInfo[t.S] = updRec{s, i, v}
+	return t
+}
+
+func isIntLit(s string) bool {
+	if s == "" {
+		return false
+	}
+	for _, c := range s {
+		if c < '0' || c > '9' {
+			return false
+		}
+	}
+	return true
+}
+
+// litElem returns the element at literal index k of a sequence built by literal-index updates, if known
+func litElem(s Term, k string) (Term, bool) {
+	for {
+		r, ok := updInfo[s.S]
+		if !ok || !isIntLit(r.idx.S) {
+			return Term{}, false
+		}
+		if r.idx.S == k {
+			return r.val, true
+		}
+		s = r.base
+	}
 }
 func emptyOf(seq Sort) Term { return mk(seq, "empty_%s", seq.sfx()) }
 func nilOf(seq Sort) Term   { return mk(seq, "nil_%s", seq.sfx()) }
